@@ -222,7 +222,7 @@ def check_recover_keyspaces(ctx):
     ob = ctx.ob('recover/keyspaces-by-id', 'recover_keyspaces: every directory whose id resolves is recovered under exactly that id, the name stored for that id and its own folder; '
                 'unreferenced directories are removed, not recovered; afterwards the id counter is above every recovered id', [pat])
     from ..contract import mk_seq
-    N = 2
+    N = 2 if ctx.tier == 'quick' else 3
     ids = [z3.BitVec(f'dir{i}.id', 64) for i in range(N)]
 
     def ov_read_dir(ex_, st, call):
@@ -230,7 +230,9 @@ def check_recover_keyspaces(ctx):
         for i in range(N):
             d = Obj('std::fs::DirEntry', f'dirent{i}', 'opaque'); d.data['idx'] = i
             ents.append(ex_.mk_enum('Result<DirEntry, io::Error>', 'Ok', [d]))
-        st.pc.append(ids[0] != ids[1])
+        import itertools as _it
+        for a_, b_ in _it.combinations(range(N), 2):
+            st.pc.append(ids[a_] != ids[b_])
         for x in ids:
             st.pc.append(z3.ULT(x, bv(2 ** 62)))
         return ex_.mk_enum(call.dst_ty, 'Ok', [mk_seq('std::fs::ReadDir', ents, 'read_dir')])
